@@ -34,6 +34,7 @@ def build_carver(case, **extra):
     else:
         kw["ordinal_features"] = [F]
         kw["values_orders"] = {F: decs(case["order"])}
+    kw.update(case.get("kwargs", {}))
     kw.update(extra)
     if case["carver"] == "binary":
         return BinaryCarver(sort_by=case["sort_by"], **kw)
@@ -44,6 +45,7 @@ def build_discretizer(case):
     from AutoCarver.discretizers import Discretizer
     ft = case["ftype"]
     kw = dict(min_freq=case["min_freq"], copy=True, verbose=False)
+    kw.update(case.get("kwargs", {}))
     if ft == "quant":
         return Discretizer(quantitative_features=[F], qualitative_features=[], **kw)
     if ft == "categ":
@@ -155,8 +157,8 @@ def gen_case(rng, kind=None):
     max_n_mod = rng.randint(2, 6)
     dropna = rng.random() < 0.7
     nan_share = rng.choice([0, 0, 0.05, 0.15, 0.3])
-    kind = kind or rng.choice(["plain", "plain", "tied_rates", "sym", "boundary", "dev", "dev", "dev_missing",
-                               "dev_invert", "few"])
+    kind = kind or rng.choice(["plain", "plain", "tied_rates", "sym", "boundary", "dev", "dev", "dev", "dev",
+                               "dev_missing", "dev_invert", "few"])
     if kind == "few":
         m = rng.randint(1, 2)
     # counts per modality
@@ -238,6 +240,17 @@ def gen_case(rng, kind=None):
         if carver == "binary" and (sum(dy) == 0 or sum(dy) == len(dy)) and dy:
             dy[0] = 1 - dy[0]
         case["Xdev"], case["ydev"] = encs(dcol), dy
+        # min_freq_mod exactly on / next to a frequency of the DEV sample (one modality or two
+        # adjacent ones), so that the dev frequency test sits on its boundary
+        if rng.random() < 0.5:
+            dc = [len(u) for u in dys]
+            j = rng.randrange(len(dc))
+            c0 = dc[j] + (dc[j + 1] if j + 1 < len(dc) and rng.random() < 0.5 else 0)
+            n_dev_nan = sum(1 for t in dcol if isinstance(t, float) and t != t)
+            denom = len(dcol) if (dropna or not n_dev_nan) else len(dcol) - n_dev_nan
+            if c0 > 0 and denom > 0:
+                f = min(c0 / denom, 0.45)
+                case["min_freq_mod"] = rng.choice([f, f, math.nextafter(f, 1), math.nextafter(f, 0)])
     return case
 
 
